@@ -325,6 +325,14 @@ impl Ord for Num {
 /// construction `packaging.version` documents: trailing zeros of the release are
 /// insignificant; dev-only sorts before pre-releases; post after; local after public.
 pub fn cmp_pep440(a: &Pep440, b: &Pep440) -> Ordering {
+    cmp_pep440_with(a, b, false)
+}
+
+/// `dev_only_high = true` reproduces one known deviation of zerv's own ordering (known finding
+/// KF-C02-pep440-dev-order): a dev release without pre/post segment (`X.devN`) is ranked with the
+/// final releases, above every pre-release of X, instead of below them.  Only used to *identify*
+/// that finding, never as the oracle.
+pub fn cmp_pep440_with(a: &Pep440, b: &Pep440, dev_only_high: bool) -> Ordering {
     fn rel(v: &Pep440) -> Vec<Num> {
         let mut r: Vec<&String> = v.release.iter().collect();
         while r.len() > 1 && r.last().map(|x| x.trim_start_matches('0').is_empty()).unwrap_or(false) {
@@ -332,13 +340,13 @@ pub fn cmp_pep440(a: &Pep440, b: &Pep440) -> Ordering {
         }
         r.into_iter().map(|x| Num(x.clone())).collect()
     }
-    fn pre(v: &Pep440) -> Ext<(u8, Num)> {
+    let pre = |v: &Pep440| -> Ext<(u8, Num)> {
         match (&v.pre, &v.post, &v.dev) {
-            (None, None, Some(_)) => Ext::NegInf,
+            (None, None, Some(_)) if !dev_only_high => Ext::NegInf,
             (None, _, _) => Ext::PosInf,
             (Some((c, n)), _, _) => Ext::Val((*c, Num(n.clone()))),
         }
-    }
+    };
     fn post(v: &Pep440) -> Ext<Num> {
         match &v.post {
             None => Ext::NegInf,
